@@ -129,6 +129,7 @@ def verify_element(rep, mod, rule):
     for ps in paths:
         known = {}
         extra = []
+        compound = []
         inc = None
         dead = False
         for c, t, p in ps.order:
@@ -143,7 +144,14 @@ def verify_element(rep, mod, rule):
                 inc = c
                 known['ms'] = t
             else:
-                extra.append(c)
+                # a compound of the observations constrains their completions
+                try:
+                    e_ = ast.parse(c, mode='eval').body
+                    probe = {k: False for k in list(ATOMS) + ['ms']}
+                    _truth(e_, probe)
+                    compound.append((e_, t))
+                except (SyntaxError, _Undecided):
+                    extra.append(c)
         if dead:
             continue
         if extra:
@@ -155,6 +163,8 @@ def verify_element(rep, mod, rule):
         for vals in itertools.product((False, True), repeat=len(free)):
             a = dict(known)
             a.update(zip(free, vals))
+            if any(_truth(e_, a) != t_ for e_, t_ in compound):
+                continue
             want = reference(a)
             try:
                 d, dtext = _descriptor(ps, a)
